@@ -10,7 +10,7 @@ RULE = ("exhaustive: every (element, isotope | none) pair of the table (render, 
         "{C, l, X, 1, 9, [, ], +, -, space, e-acute, superscript-2, CJK} through parse / FromStr / the helper and as "
         "read keys; random longer strings and mutations of valid specifications; class of a case = (operation, "
         "outcome of the real code, spec verdict)")
-MODULES = ["Props.C16", "Inst.C16", "Inst.Variant", "Inst.C16Own"]
+MODULES = ["Props.C16", "Inst.C16", "Inst.Variant", "Inst.C16Own", "Inst.C16Quick"]
 ALPHABET = ["C", "l", "X", "1", "9", "[", "]", "+", "-", " ", "é", "²", "中"]
 
 
